@@ -210,6 +210,11 @@ def run_case(rng, tier, case):
                 want_ = float(sum(q_['value'] for q_ in refs))
                 case.check('split.relaxed_value_is_sum_of_relaxed_intervals', abs(float(res_soft.value) - want_) <= solve.TOL_VAL * (1 + abs(want_)), nonvacuous=abs(want_ - v_split) > 1e-6 * (1 + abs(v_split)),
                            relaxed_split=float(res_soft.value), sum_of_relaxed_interval_optima=want_, exact_split=v_split)
+            # ... and the relaxed run leaves the problem what it was: the exact run afterwards gives the exact value again
+            with env.quiet(), attach.paused():
+                res_hard = rs.op.optimize()
+            if not isinstance(res_hard, str):
+                case.check('split.exact_run_after_relaxed_run_same_value', abs(float(res_hard.value) - v_split) <= solve.TOL_VAL_MIP * (1 + abs(v_split)), first=v_split, after_relaxed_run=float(res_hard.value))
         except Exception as e:
             case.check('split.relaxed_run_works', False, error='%s: %s' % (type(e).__name__, str(e)[:160]))
     ms = rs.op.mapping
